@@ -345,6 +345,81 @@ def check_source(desc, proto, max_in, max_out, as_kind):
                             bad("implicit_usage_raises", f"{type(e).__name__}: {e}"[:120], cut)
                     finally:
                         bn.replace_input_with(idx, cur)
+    # a longer history on a body: one of its values is listed as a body output (append, slice assignment that keeps
+    # it), taken off again, and its producer is hoisted in front of the host node - the body now CAPTURES that value
+    if as_kind == "graph" and not found:
+        def bodies_of(graph):
+            out = []
+            for top_i, top in enumerate(graph):
+                for a in top.attributes.values():
+                    if a.is_ref():
+                        continue
+                    subs = [a.as_graph()] if a.type == ir.AttributeType.GRAPH else list(a.as_graphs()) if a.type == ir.AttributeType.GRAPHS else []
+                    for sg_i, sg in enumerate(subs):
+                        out.append((top_i, a.name, sg_i, sg))
+            return out
+
+        for top_i, aname, sg_i, sg0 in bodies_of(main):
+            for bn_i, bn0 in enumerate(sg0):
+                if not bn0.outputs or not bn0.outputs[0].name:
+                    continue
+                m2 = ir.from_proto(proto)
+                g2 = m2.graph
+                top = g2[top_i]
+                sg = [x for x in bodies_of(g2) if x[0] == top_i and x[1] == aname and x[2] == sg_i][0][3]
+                bn = sg[bn_i]
+                order = {id(n_): k for k, n_ in enumerate(g2)}
+                ok = True
+                for v in bn.inputs:
+                    if v is None:
+                        continue
+                    pr = v.producer()
+                    if v.graph is not g2 or (pr is not None and order.get(id(pr), 10**9) >= top_i):
+                        ok = False
+                if not ok or any(a.type in (ir.AttributeType.GRAPH, ir.AttributeType.GRAPHS) for a in bn.attributes.values()):
+                    continue
+                t = bn.outputs[0]
+                try:
+                    was_output = t.is_graph_output()
+                    if not was_output:
+                        sg.outputs.append(t)
+                    sg.outputs[:] = list(sg.outputs)
+                    if not was_output:
+                        sg.outputs.remove(t)
+                    else:
+                        continue  # taking a real body output away would change what the host returns
+                    sg.remove(bn)
+                    g2.insert_before(top, bn)
+                except Exception:  # noqa: BLE001  the edit is not applicable to this body
+                    continue
+                n_cuts += 1
+                cover2 = list(g2.inputs) + list(g2.initializers.values())
+                outs2 = [top.outputs[0]] if top.outputs and top.outputs[0].name else []
+                if not outs2:
+                    continue
+                cut = ([v.name for v in cover2], [o.name for o in outs2], f"after_output_listing_and_hoisting[{bn.name}]")
+                if t.graph is not g2:
+                    bad("hoisted_value_reports_another_graph", (t.name, getattr(t.graph, "name", None)), cut)
+                ref_nodes, ref_inits, uncovered = reference_region(g2, cover2, outs2)
+                try:
+                    res = ir_conv.extract(g2, cover2, outs2)
+                    exc = None
+                except Exception as e:  # noqa: BLE001
+                    res, exc = None, e
+                if uncovered:
+                    if exc is None:
+                        bad("uncovered_requirement_did_not_raise", [v.name for v in uncovered], cut)
+                elif exc is not None:
+                    bad("bounded_region_rejected_after_hoisting", f"{type(exc).__name__}: {exc}"[:160], cut)
+                elif [n.name for n in res] != [n.name for n in ref_nodes]:
+                    bad("region_after_hoisting_differs", ([n.name for n in res], [n.name for n in ref_nodes]), cut)
+                try:
+                    got = ir.analysis.analyze_implicit_usage(g2)
+                    want = brute_force_implicit(g2)
+                    if {g.name: {v.name for v in s_} for g, s_ in got.items()} != {g.name: {v.name for v in s_} for g, s_ in want.items()}:
+                        bad("implicit_usage_differs_from_brute_force_after_hoisting", ({g.name: sorted(v.name for v in s_) for g, s_ in got.items()}, {g.name: sorted(v.name for v in s_) for g, s_ in want.items()}), cut)
+                except Exception as e:  # noqa: BLE001
+                    bad("implicit_usage_raises", f"{type(e).__name__}: {e}"[:120], cut)
     return n_cuts, n_raised, found
 
 
